@@ -72,14 +72,7 @@ def _l1_single_read(L: int, b: int, k: int, F: int, rs: int, rl: int, ds_present
                  is_qcfail=qcfail, is_duplicate=dup, mapping_quality=mapq)
     read.mi, read.ds_present, read.ds, read.da_present = mi, ds_present, ds, da_present
     total, cmds = _count_all(L, b, k, F, read, min_mq, dedup, ['DA'] if keyed else None)
-    # jobs tile the contig
-    pos = 0
-    for (_, _, _, contig, start, end, *_rest) in cmds:
-        if start != pos or end != start + b * k:
-            return False
-        pos = end
-    if pos < L:
-        return False
+    # (no clause about the shape of the jobs: how the contig is split is the implementation's business, the property is about the table)
     site = ds if ds_present else rs
     counted = read1 and (not qcfail) and (not (dedup and dup)) and (mi != 2) and (mapq >= min_mq) and (0 <= site < L)
     if not counted:
